@@ -259,6 +259,8 @@ struct Inner {
     seq_digest: u64,
     parallelism: usize,
     atom: HashMap<usize, VC>,
+    /// atomics that were ever loaded, stored or compare-exchanged (anything but a pure counter)
+    sync_addrs: std::collections::HashSet<usize>,
     shadow: HashMap<usize, Shadow>,
     live: Vec<Range>,
     retired: Vec<Range>,
@@ -334,6 +336,7 @@ impl Inner {
             seq_digest: 0,
             parallelism: 16,
             atom: HashMap::new(),
+            sync_addrs: std::collections::HashSet::new(),
             shadow: HashMap::new(),
             live: Vec::new(),
             retired: Vec::new(),
@@ -781,8 +784,14 @@ impl Runtime for Rt {
         if op == AtomicOp::Store && new == 0 && g.th[t].holding == addr {
             g.th[t].holding = 0;
         }
-        // a store / successful RMW that changes a value is progress for livelock detection
-        if success && op != AtomicOp::Load && old != new {
+        // a store / successful RMW that changes a value is progress for livelock detection -
+        // except on a pure counter (an atomic only ever touched by fetch_add, like the seed of
+        // the backoff's pseudo-random number), which tells no other thread anything
+        if op != AtomicOp::Rmw {
+            g.sync_addrs.insert(addr);
+        }
+        let counter = op == AtomicOp::Rmw && !g.sync_addrs.contains(&addr);
+        if success && op != AtomicOp::Load && old != new && !counter {
             for th in g.th.iter_mut() {
                 th.consec_yield = 0;
             }
